@@ -328,6 +328,14 @@ async def open_child_case(case: dict[str, Any], sc: Scenario) -> None:
     outcome: dict[str, Any] = {}
 
     async def child_task(parent: Any) -> None:
+        if case.get("child_phase") == "abandoned":
+            # the child is entered by hand in a task that then simply ends and drops its reference: it is never left, so it
+            # is still an open child of its parent - also after a garbage collection
+            abandoned = Context(parent) if case["explicit_parent"] else Context()
+            await abandoned.__aenter__()
+            del abandoned
+            child_open.set()
+            return
         try:
             async with (Context(parent) if case["explicit_parent"] else Context()) as child:  # (parent: a context, or what a component saw as its context)
                 if case.get("child_phase") == "teardown":
@@ -376,6 +384,11 @@ async def open_child_case(case: dict[str, Any], sc: Scenario) -> None:
                     given = seen[0]
                 tg.start_soon(child_task, given)
                 await child_open.wait()
+                if case.get("child_phase") == "abandoned":
+                    import gc
+
+                    await anyio.sleep(0.1)  # the child's task is over
+                    gc.collect()
         except BaseException as e:
             outcome["parent"] = e
         else:
@@ -391,6 +404,72 @@ async def open_child_case(case: dict[str, Any], sc: Scenario) -> None:
     sc.log.append(f"outcome: { {k: describe_exc(v) for k, v in outcome.items()} }")
     if outcome.get("parent") is None and "parent" in outcome and outcome.get("outer") is None:
         sc.bad("lifecycle-open-child-ignored", "a context was left while a child context entered from it was still open and no error was reported")
+
+
+async def busy_exit_case(case: dict[str, Any], sc: Scenario) -> None:
+    """a context is left - normally or by cancellation - while another task is suspended in one of its asynchronous resource
+    factories (a lookup in flight): the teardown runs all the same, the context is closed afterwards and rejects everything"""
+    from asphalt.core import Context
+
+    class R:
+        pass
+
+    ran: list[str] = []
+    outcome: dict[str, Any] = {}
+
+    async def factory() -> R:
+        await anyio.sleep(5)
+        return R()
+
+    async def requester(ctx: Any) -> None:
+        try:
+            await ctx.get_resource(R)
+        except BaseException as e:
+            outcome["requester"] = e
+            raise
+
+    async def run_it() -> None:
+        async with create_task_group() as tg:
+            try:
+                with anyio.CancelScope() as scope:
+                    async with Context() as ctx:
+                        outcome["ctx"] = ctx
+                        ctx.add_resource_factory(factory, types=[R])
+                        ctx.add_teardown_callback(lambda: ran.append("teardown"))
+                        tg.start_soon(requester, ctx)
+                        await anyio.sleep(0.5)
+                        if case["ending"] == "cancelled":
+                            scope.cancel()
+                            await checkpoint()
+            except BaseException as e:
+                outcome["boundary"] = e
+            ctx = outcome["ctx"]
+            outcome["closed_after"] = bool(ctx.closed)
+            for name, call in (("add_resource", lambda: ctx.add_resource(1, "late")), ("add_teardown_callback", lambda: ctx.add_teardown_callback(lambda: None)),
+                               ("get_resource_nowait", lambda: ctx.get_resource_nowait(int, optional=True))):
+                try:
+                    call()
+                    outcome.setdefault("accepted_after", []).append(name)
+                except RuntimeError:
+                    pass
+                except Exception as e:
+                    outcome.setdefault("odd_after", []).append((name, describe_exc(e)))
+            tg.cancel_scope.cancel()
+
+    if case["nested"]:
+        async with Context():
+            await run_it()
+    else:
+        await run_it()
+    sc.inc("contexts_left_with_a_lookup_in_flight")
+    sc.log.append(f"outcome: { {k: (describe_exc(v) if isinstance(v, BaseException) else v) for k, v in outcome.items() if k != 'ctx'} }; ran={ran}")
+    if ran != ["teardown"]:
+        sc.bad("lifecycle-teardown-set", f"a context left ({case['ending']}) while a lookup was suspended in one of its asynchronous factories ran its teardown callbacks {ran}")
+    if outcome.get("closed_after") is not True:
+        sc.bad(f"lifecycle-closed-flag[closed_{case['ending']}]", "after its block was left, a context with a lookup still in flight does not report itself closed")
+    if outcome.get("accepted_after"):
+        sc.bad(f"lifecycle-wrongly-accepted[closed_{case['ending']},{outcome['accepted_after'][0]}]",
+               f"after its block was left, a context with a lookup still in flight still accepted {outcome['accepted_after']}")
 
 
 async def equal_siblings_case(case: dict[str, Any], sc: Scenario) -> None:
@@ -473,10 +552,12 @@ def matrix_cells() -> list[dict[str, Any]]:
         if state != "inactive" and op not in ("reenter", "closed"):
             cells.append({"kind": "cell", "state": state, "op": op, "nested": nested, "backend": backend, "ending": ending,
                           "ops": {slot: [op]}, "via": "component"})
-    for nested, explicit, backend, falsy, phase in itertools.product([False, True], [False, True, "component"], ["asyncio", "trio"], [False, True], ["block", "teardown"]):
-        if explicit == "component" and nested:
+    for nested, explicit, backend, falsy, phase in itertools.product([False, True], [False, True, "component"], ["asyncio", "trio"], [False, True], ["block", "teardown", "abandoned"]):
+        if (explicit == "component" or phase == "abandoned") and nested:
             continue
         cells.append({"kind": "open_child", "nested": nested, "explicit_parent": explicit, "backend": backend, "falsy_contexts": falsy, "child_phase": phase})
+    for ending, nested, backend in itertools.product(["clean", "cancelled"], [False, True], ["asyncio", "trio"]):
+        cells.append({"kind": "busy_exit", "ending": ending, "nested": nested, "backend": backend})
     for siblings, explicit, early, backend in itertools.product([2, 3], [False, True], [False, True], ["asyncio", "trio"]):
         cells.append({"kind": "equal_siblings", "siblings": siblings, "explicit_parent": explicit, "leave_parent_early": early, "backend": backend})
     for nested, backend in itertools.product([False, True], ["asyncio", "trio"]):
@@ -513,6 +594,8 @@ def run_case(case: Any) -> dict[str, Any]:
             run_virtual(case["backend"], open_child_case, case, sc)
         elif case["kind"] == "equal_siblings":
             run_virtual(case["backend"], equal_siblings_case, case, sc)
+        elif case["kind"] == "busy_exit":
+            run_virtual(case["backend"], busy_exit_case, case, sc)
         else:
             run_virtual(case["backend"], sc.main, sched_seed=case.get("sched_seed", 0))
     except VirtualDeadlock as e:
@@ -527,7 +610,7 @@ def run_case(case: Any) -> dict[str, Any]:
     sample = None
     if case["kind"] == "random" and rej and acc and len(sc.log) > 8:
         sample = {"case": case, "log": sc.log[:30]}
-    return {"violations": sc.V[:5], "sig": case, "nontrivial": bool(rej and acc) or case["kind"] in ("open_child", "cell", "equal_siblings"),
+    return {"violations": sc.V[:5], "sig": case, "nontrivial": bool(rej and acc) or case["kind"] in ("open_child", "cell", "equal_siblings", "busy_exit"),
             "counters": sc.counters, "sample": sample}
 
 
